@@ -148,3 +148,18 @@ Section AnyServer.
     exists k. split; [lia|]. split; [lia|]. exact Hk.
   Qed.
 End AnyServer.
+
+(* non-vacuity of the any-server statement: a server that is NOT the documented
+   one (it claims 5 pages and hands out an empty third page) meets the two
+   hypotheses with C = 5, and the listing stops at k = 3 *)
+Definition odd_server (q : request) : response nat :=
+  {| r_page := q_page q; r_count := 5;
+     r_items := if q_page q <? 3 then [q_page q; q_page q] else [] |}.
+Lemma odd_server_hyps :
+  (forall q, r_page (odd_server q) = q_page q) /\ (forall q, r_count (odd_server q) <= 5).
+Proof. split; intros q; cbn; lia. Qed.
+Lemma odd_server_run :
+  option_map (fun p => (fst p, map q_page (snd p)))
+    (list_pages odd_server 6 {| f_name := None; f_regex := None |} 2)
+  = Some ([1; 1; 2; 2], [1; 2; 3]).
+Proof. vm_compute. reflexivity. Qed.
